@@ -19,7 +19,14 @@ fuzz_target!(|data: &[u8]| {
     }
     let mut ctx = fw::Ctx::bare("C18");
     if let Err(f) = c18::check_doc(&mut ctx, text, "libfuzzer", false) {
+        // open known findings are excluded (the campaign would otherwise end at the first rediscovery)
+        static KNOWN: std::sync::OnceLock<Vec<String>> = std::sync::OnceLock::new();
+        let known = KNOWN.get_or_init(|| fw::load_known().into_iter().filter(|k| k.property == "C18" && k.status == "open").map(|k| k.signature).collect());
+        if known.contains(&f.sig) {
+            return;
+        }
         eprintln!("PV-VIOLATION {} {}", f.sig, f.msg);
+        eprintln!("PV-REPLAY-JSON {}", serde_json::json!({"property": "C18", "signature": f.sig, "message": f.msg, "case": f.case}));
         std::process::abort();
     }
 });
